@@ -2,31 +2,45 @@
 import glob, json, os, shutil
 import vlib
 
-TARGETS = ["Base/Corr.vo", "C15/Model.vo", "C15/ModelBuf.vo", "C15/ModelCH.vo", "C15/ModelSet.vo", "C15/Corr.vo", "C15/CorrCH.vo", "C15/Spec.vo", "C15/SpecTest.vo",
+TARGETS = ["Base/Corr.vo", "C15/Model.vo", "C15/ModelBuf.vo", "C15/ModelCH.vo", "C15/ModelSet.vo", "C15/ModelCls.vo", "C15/ModelHist.vo",
+           "C15/Corr.vo", "C15/CorrCH.vo", "C15/Spec.vo", "C15/SpecTest.vo",
            "C15/ProofsSum.vo", "C15/ProofsFwd.vo", "C15/ProofsBwd.vo", "C15/ProofsBuf.vo", "C15/ProofsOpt.vo", "C15/ProofsVit.vo",
            "C15/ProofsVitInst.vo", "C15/ProofsMix.vo", "C15/ProofsLog.vo", "C15/ProofsTop.vo", "C15/ProofsPost.vo", "C15/ProofsBW.vo", "C15/ProofsTop2.vo",
-           "C15/Proofs.vo", "C15/Props.vo", "C15/ProofsCH.vo", "C15/PropsCH.vo", "C15/ProofsSet.vo", "C15/ProofsSet2.vo", "C15/PropsSet.vo"]
-PROPS = ["C15/Props.v", "C15/PropsCH.v", "C15/PropsSet.v"]
+           "C15/Proofs.vo", "C15/Props.vo", "C15/ProofsCH.vo", "C15/PropsCH.vo", "C15/ProofsSet.vo", "C15/ProofsSet2.vo", "C15/PropsSet.vo",
+           "C15/ProofsCls.vo", "C15/PropsCls.vo", "C15/ProofsHist.vo", "C15/PropsHist.vo",
+           "C15/ProofsBWN.vo", "C15/PropsBWN.vo"]
+PROPS = ["C15/Props.v", "C15/PropsCH.v", "C15/PropsSet.v", "C15/PropsCls.v", "C15/PropsHist.v", "C15/PropsBWN.v"]
 PARTIAL = ("Theorems are about the hand-written semiring-polymorphic models coq/C15/Model.v (pure functions), "
            "coq/C15/ModelBuf.v (forward/backward/float64 copies, Posterior and one Baum-Welch step of a thread as state "
-           "transformers on work buffers with arbitrary prior content) and coq/C15/ModelCH.v (constrained / hierarchical "
-           "transition matrices); exact arithmetic in a commutative semiring; the log-space float code is connected "
+           "transformers on work buffers with arbitrary prior content), coq/C15/ModelCH.v (constrained / hierarchical "
+           "transition matrices), coq/C15/ModelCls.v (round 6: the classifier front-ends vectorClassifier.HmmPosterior / "
+           "HmmClassifier) and coq/C15/ModelHist.v (round 6: the config round trip as a history step); exact arithmetic in a "
+           "commutative semiring; the log-space float code is connected "
            "through the ln/exp isomorphism stated over R and, per sampled case, through the exact-rational comparison of "
            "exp(value) with relative tolerance 2^-36; binary64 rounding itself is not proved. Posterior theorem: "
            "duplicate-free state sets below m; with repeated states the claim is refuted (multiset value, compared per "
-           "case). Constrained HMM: the Lagrange multipliers of ChmmTransitionMatrix.Normalize come from Newton's method "
+           "case); HmmPosterior.Eval likewise (proved for any list as the sum of the listed marginals, for duplicate-free lists "
+           "as the enumerated probability of the set). Constrained HMM: the Lagrange multipliers of ChmmTransitionMatrix.Normalize come from Newton's method "
            "and are oracle data (theorems hold for every multiplier vector; that the rows then sum to one is exactly the "
            "root condition and is checked per case at 2^-20, not proved). Hierarchical HMM: row-stochasticity proved for "
            "leaf blocks only (inner nodes: per case, exact). Baum-Welch: expected counts of ONE thread; merging threads is "
-           "C17, the emission M-step C16; hmm1.normalize is executed and compared, no theorem. matrixDistribution.Hmm / "
+           "C17, the emission M-step C16; hmm1.normalize: the re-estimated Pi / Tr are proved to be distributions (rows without "
+           "mass: self loop) as functions of the expected counts, and executed and compared per case. matrixDistribution.Hmm / "
            "ShapeHmm share generic.Hmm's inference code and differ only in the emission table, over which the theorems "
-           "quantify; the vectorClassifier front-ends are not exercised. Setter histories (coq/C15/ModelSet.v): generic.Hmm / "
-           "vectorDistribution.Hmm under SetStartStates / SetFinalStates / SetParameters / Clone in any order and number; "
-           "the invariant Tf = normalise-final(current Tr, current final states) is proved for every history; Pi is not "
-           "derived state (SetParameters stores it raw: F-C15-SETPARAMS-START, refuted on the model); SetParameters on a "
+           "quantify; the vectorClassifier front-ends are exercised through every wrapper built on vectorDistribution.Hmm "
+           "(cat, chmm/hhmm with categorical emissions, histories), with Float64 result vectors only; vectorDistribution.Mixture "
+           "through ScalarId components (kind mixvec). Histories (coq/C15/ModelSet.v, ModelHist.v): generic.Hmm / "
+           "vectorDistribution.Hmm under SetStartStates / SetFinalStates / SetParameters / Clone / "
+           "ImportConfig(json(ExportConfig())) in any order and number; "
+           "the invariant Tf = normalise-final(current Tr, current final states) is proved for every such history, the "
+           "object's Pi / Tr / sets follow a machine without derived state; Pi is not "
+           "derived state (SetParameters stores it raw: F-C15-SETPARAMS-START, refuted on the model; a successful config "
+           "round trip is proved to restore the mask); the round trip returns the normalisation error when Pi has no mass (proved; "
+           "regression cases of the repaired F-C15-PIVEC-ERR-SWALLOWED in the corpus); ImportConfig of hand-written / inconsistent configuration files is not modelled; "
+           "SetParameters on a "
            "constrained / hierarchical HMM panics in the unchanged library (F-C15-SETPARAMS-UNCOMPARABLE), so for those "
-           "only constructor + one SetStartStates / SetFinalStates are modelled; ImportConfig and the Baum-Welch "
-           "re-normalisation as history steps are not modelled (the latter is compared per case, kind bw).")
+           "only constructor + one SetStartStates / SetFinalStates are modelled; the Baum-Welch "
+           "re-normalisation as a history step is not modelled (it is compared per case, kind bw).")
 # genuine quirks of the unchanged library, matched narrowly (id, site, fixed witness evaluated by the harness)
 KNOWN_IDS = {
     "F-C15-TF-SELFLOOP": "statistics/generic/hmm_utility.go:126 (HmmTransitionMatrix.Normalize via Hmm.normalizeTf): a state without "
@@ -56,6 +70,14 @@ def install_hook():
         open(dst, "w").write(src)
 
 
+def coq_jobs():
+    """parallel coqc workers for the correspondence shards; VERIF_COQ_JOBS caps it on a loaded machine"""
+    try:
+        return max(1, min(vlib.NCPU, int(os.environ.get("VERIF_COQ_JOBS", vlib.NCPU))))
+    except ValueError:
+        return vlib.NCPU
+
+
 def corr(ctx, binary, n, corpus):
     rc, out = vlib.run_harness(ctx, binary, n, extra=corpus)
     if rc != 0:
@@ -66,7 +88,7 @@ def corr(ctx, binary, n, corpus):
     vlib.merge_meta(ctx, meta)
     shards = sorted(glob.glob(os.path.join(ctx.dir, "cases_*.v")),
                     key=lambda p: int(os.path.basename(p)[6:-2]))
-    res = vlib.eval_shards(shards)
+    res = vlib.eval_shards(shards, jobs=coq_jobs())
     ctx.oblige(len(res), sum(1 for r in res if r["ok"]))
     cases = vlib.load_jsonl(os.path.join(ctx.dir, "cases.jsonl"))
     bad = []
@@ -123,8 +145,13 @@ def run(ctx):
     thms = vlib.theorem_names(os.path.join(vlib.COQ, "C15/Props.v"))
     thms2 = vlib.theorem_names(os.path.join(vlib.COQ, "C15/PropsCH.v"))
     thms3 = vlib.theorem_names(os.path.join(vlib.COQ, "C15/PropsSet.v"))
+    thms4 = vlib.theorem_names(os.path.join(vlib.COQ, "C15/PropsCls.v"))
+    thms5 = vlib.theorem_names(os.path.join(vlib.COQ, "C15/PropsHist.v"))
+    thms6 = vlib.theorem_names(os.path.join(vlib.COQ, "C15/PropsBWN.v"))
     if ok:
-        ctx.cov["print_assumptions"] = vlib.print_assumptions("C15", [("C15.Props", thms), ("C15.PropsCH", thms2), ("C15.PropsSet", thms3)], ctx.dir)
+        ctx.cov["print_assumptions"] = vlib.print_assumptions("C15", [("C15.Props", thms), ("C15.PropsCH", thms2), ("C15.PropsSet", thms3),
+                                                                      ("C15.PropsCls", thms4), ("C15.PropsHist", thms5),
+                                                                      ("C15.PropsBWN", thms6)], ctx.dir)
     binary, blog = vlib.build_harness("c15")
     if binary is None:
         ctx.violation({"obligation": "build of harness/c15 against the library", "log": blog[-3000:]}, False,
@@ -163,7 +190,7 @@ def replay(ctx, path):
         return 0 if ok else 1
     vlib.coq_make(["C15/CorrCH.vo"])
     rc, out = vlib.sh([binary, "--replay", path, "--out", ctx.dir], env=vlib.go_env())
-    res = vlib.eval_shards(sorted(glob.glob(os.path.join(ctx.dir, "replay_*.v"))))
+    res = vlib.eval_shards(sorted(glob.glob(os.path.join(ctx.dir, "replay_*.v"))), jobs=coq_jobs())
     hin = os.path.join(ctx.dir, "hunt_in.json")
     json.dump({"cases": [rp["case"]]}, open(hin, "w"))
     vlib.sh([binary, "--extra", "hunt", "--replay", hin, "--n", "0", "--out", ctx.dir], env=vlib.go_env())
